@@ -70,3 +70,93 @@ Proof.
   - Time interval with (i_bisect T, i_taylor T, i_prec 60).
   - Time interval with (i_bisect T, i_taylor T, i_prec 60).
 Qed.
+
+(* ------------------------------------------------------------------ *)
+(** * finite intervals with one end at J2000 (a one-variable problem): the two routes agree within
+      a chord of 9e-7 (5.2e-5 degree < 1e-4 degree) for the other epoch within 5 centuries *)
+From Spec Require Import PrecessionBack.
+
+Definition R_route (T t : R) (v : vec) : vec :=
+  rot_equ (d2r (zeta_as T t / 3600)) (d2r (z_as T t / 3600)) (d2r (theta_as T t / 3600)) v.
+Definition E_route (T t : R) (v : vec) : vec :=
+  Rx (d2r (eps_deg (T + t)))
+     (rot_ecl (d2r (eta_as T t / 3600)) (d2r (pi_as T t / 3600 + pi0_deg)) (d2r (p_as T t / 3600))
+              (Rx (- d2r (eps_deg T)) v)).
+
+(* linear combinations of three vectors *)
+Definition vscal (k : R) (u : vec) : vec := let '(a, b, c) := u in (k * a, k * b, k * c).
+Definition vlin (x y z : R) (c1 c2 c3 : vec) : vec := vadd (vscal x c1) (vadd (vscal y c2) (vscal z c3)).
+
+Lemma vlin_basis x y z : (x, y, z) = vlin x y z (1, 0, 0) (0, 1, 0) (0, 0, 1).
+Proof. unfold vlin, vscal, vadd. apply vec_eq; ring. Qed.
+Lemma Rx_vlin a x y z c1 c2 c3 : Rx a (vlin x y z c1 c2 c3) = vlin x y z (Rx a c1) (Rx a c2) (Rx a c3).
+Proof.
+  destruct c1 as [[? ?] ?], c2 as [[? ?] ?], c3 as [[? ?] ?]. unfold vlin, vscal, vadd, Rx. apply vec_eq; ring.
+Qed.
+Lemma Ry_vlin a x y z c1 c2 c3 : Ry a (vlin x y z c1 c2 c3) = vlin x y z (Ry a c1) (Ry a c2) (Ry a c3).
+Proof.
+  destruct c1 as [[? ?] ?], c2 as [[? ?] ?], c3 as [[? ?] ?]. unfold vlin, vscal, vadd, Ry. apply vec_eq; ring.
+Qed.
+Lemma Rz_vlin a x y z c1 c2 c3 : Rz a (vlin x y z c1 c2 c3) = vlin x y z (Rz a c1) (Rz a c2) (Rz a c3).
+Proof.
+  destruct c1 as [[? ?] ?], c2 as [[? ?] ?], c3 as [[? ?] ?]. unfold vlin, vscal, vadd, Rz. apply vec_eq; ring.
+Qed.
+Lemma vsub_vlin x y z a1 a2 a3 b1 b2 b3 :
+  vsub (vlin x y z a1 a2 a3) (vlin x y z b1 b2 b3) = vlin x y z (vsub a1 b1) (vsub a2 b2) (vsub a3 b3).
+Proof.
+  destruct a1 as [[? ?] ?], a2 as [[? ?] ?], a3 as [[? ?] ?], b1 as [[? ?] ?], b2 as [[? ?] ?], b3 as [[? ?] ?].
+  unfold vlin, vscal, vadd, vsub. apply vec_eq; ring.
+Qed.
+
+Lemma R_route_vlin T t x y z c1 c2 c3 :
+  R_route T t (vlin x y z c1 c2 c3) = vlin x y z (R_route T t c1) (R_route T t c2) (R_route T t c3).
+Proof. unfold R_route, rot_equ. rewrite Rz_vlin, Ry_vlin, Rz_vlin. reflexivity. Qed.
+Lemma E_route_vlin T t x y z c1 c2 c3 :
+  E_route T t (vlin x y z c1 c2 c3) = vlin x y z (E_route T t c1) (E_route T t c2) (E_route T t c3).
+Proof. unfold E_route, rot_ecl. rewrite Rx_vlin, Rz_vlin, Rx_vlin, Rz_vlin, Rx_vlin. reflexivity. Qed.
+
+Lemma vnorm_vscal k u : vnorm (vscal k u) = Rabs k * vnorm u.
+Proof.
+  unfold vnorm. rewrite <- (sqrt_Rsqr_abs k), <- sqrt_mult_alt by apply Rle_0_sqr.
+  f_equal. destruct u as [[a b] c]. unfold vscal, dot, Rsqr. ring.
+Qed.
+
+Lemma coord_le_vnorm x y z : Rabs x <= vnorm (x, y, z) /\ Rabs y <= vnorm (x, y, z) /\ Rabs z <= vnorm (x, y, z).
+Proof.
+  unfold vnorm, dot.
+  repeat split; rewrite <- sqrt_Rsqr_abs; apply sqrt_le_1_alt; unfold Rsqr; nra.
+Qed.
+
+Lemma vnorm_vlin x y z c1 c2 c3 :
+  vnorm (vlin x y z c1 c2 c3) <= (vnorm c1 + vnorm c2 + vnorm c3) * vnorm (x, y, z).
+Proof.
+  unfold vlin. eapply Rle_trans; [apply vnorm_triangle|].
+  eapply Rle_trans; [apply Rplus_le_compat_l, vnorm_triangle|].
+  rewrite !vnorm_vscal. destruct (coord_le_vnorm x y z) as (Hx & Hy & Hz).
+  pose proof (vnorm_nonneg c1). pose proof (vnorm_nonneg c2). pose proof (vnorm_nonneg c3).
+  pose proof (Rabs_pos x). pose proof (Rabs_pos y). pose proof (Rabs_pos z). nra.
+Qed.
+
+Lemma vnorm_le_sum a b c : vnorm (a, b, c) <= Rabs a + Rabs b + Rabs c.
+Proof.
+  unfold vnorm, dot. pose proof (Rabs_pos a). pose proof (Rabs_pos b). pose proof (Rabs_pos c).
+  rewrite <- (sqrt_square (Rabs a + Rabs b + Rabs c)) by lra. apply sqrt_le_1_alt.
+  rewrite <- (Rabs_mult a a), <- (Rabs_mult b b), <- (Rabs_mult c c) || idtac.
+  assert (a * a = Rabs a * Rabs a) by (rewrite <- Rabs_mult; symmetry; apply Rabs_right; nra).
+  assert (b * b = Rabs b * Rabs b) by (rewrite <- Rabs_mult; symmetry; apply Rabs_right; nra).
+  assert (c * c = Rabs c * Rabs c) by (rewrite <- Rabs_mult; symmetry; apply Rabs_right; nra).
+  nra.
+Qed.
+
+(* the difference of the two routes on an arbitrary vector from the differences on the basis *)
+Theorem route_chord_from_columns T t v b1 b2 b3 :
+  chord (E_route T t (1, 0, 0)) (R_route T t (1, 0, 0)) <= b1 ->
+  chord (E_route T t (0, 1, 0)) (R_route T t (0, 1, 0)) <= b2 ->
+  chord (E_route T t (0, 0, 1)) (R_route T t (0, 0, 1)) <= b3 ->
+  chord (E_route T t v) (R_route T t v) <= (b1 + b2 + b3) * vnorm v.
+Proof.
+  intros H1 H2 H3. destruct v as [[x y] z]. rewrite (vlin_basis x y z) at 1 2.
+  unfold chord in *. rewrite E_route_vlin, R_route_vlin, vsub_vlin.
+  eapply Rle_trans; [apply vnorm_vlin|].
+  apply Rmult_le_compat_r; [apply vnorm_nonneg | lra].
+Qed.
